@@ -32,6 +32,16 @@
         #[verifier::external_body]
         fn le0(&self) -> (r: u8) { self.to_le_bytes()[0] }
     }
+    impl Le0 for u16 {
+        open spec fn le0_spec(&self) -> u8 { (*self as int % 256) as u8 }
+        #[verifier::external_body]
+        fn le0(&self) -> (r: u8) { self.to_le_bytes()[0] }
+    }
+    impl Le0 for u64 {
+        open spec fn le0_spec(&self) -> u8 { (*self as int % 256) as u8 }
+        #[verifier::external_body]
+        fn le0(&self) -> (r: u8) { self.to_le_bytes()[0] }
+    }
     impl Le0 for u32 {
         open spec fn le0_spec(&self) -> u8 { (*self as int % 256) as u8 }
         #[verifier::external_body]
